@@ -9,10 +9,10 @@ import "math/big"
 // where that value stops being secret: r = (e + x1) mod n is published as
 // part of the signature. A taint-tracking monitor uses it to stop following
 // the nonce into the public value.
-var VerifDeclassifyHook func(words []big.Word)
+var VerifDeclassifyHook func(x *big.Int)
 
 func verifDeclassify(x *big.Int) {
 	if VerifDeclassifyHook != nil {
-		VerifDeclassifyHook(x.Bits())
+		VerifDeclassifyHook(x)
 	}
 }
